@@ -54,10 +54,10 @@ theorem relocate_cases (h : Holder) (base : Nat) :
       rw [heq] at hk
       dsimp only at hk
       split
-      · rename_i hlast
+      · left; rfl
+      · rename_i id hid
         split
-        · left; rfl
-        · rename_i id hid
+        · rename_i hlast
           right
           refine ⟨st, id, hid, ?_, hk.1, by have := countNone_le h.entries; omega, rfl, rfl⟩
           unfold addrTabIsLast at hlast
@@ -69,7 +69,7 @@ theorem relocate_cases (h : Holder) (base : Nat) :
             rw [hg] at hlast
             simp only [beq_iff_eq] at hlast
             simp [hlast]
-      · left; rfl
+        · left; rfl
 
 theorem modifySec_append_last (l : List Section) (a : Section) (id : Nat) (f : Section → Section)
     (hl : ∀ s ∈ l, s.id ≠ id) (ha : a.id = id) : modifySec (l ++ [a]) id f = l ++ [f a] := by
